@@ -1,6 +1,7 @@
 import GoSQLXModel.Model.LexGen
 import GoSQLXModel.Proofs.LexMunch
 import GoSQLXModel.Proofs.LexSpell
+import GoSQLXModel.Proofs.LexSpell2
 import GoSQLXModel.Driver.GoClass
 /-!
 # C04 — The token stream is a faithful, layout-independent reading of the text
@@ -29,10 +30,23 @@ nested `if` ladder of readPunctuation and the longest-match reading coincide), k
   same lexemes give the same tokens.  Its hypotheses on the parameters are decidable and discharged here for the
   classifier dumped from the Go runtime (`go_class_ascii_ok`) and today's operator table (`gen_punct_ok`).
 
-**Partial**: for the rest of the lexical surface (string and quoted-identifier forms, numbers with fraction/exponent,
-multi-byte operators, compound keywords, comments between elements, non-ASCII identifiers) the statement "the token
-list is the lexeme list" is not a Lean theorem; it is checked by the harness against the generator's own record
-(oracle), exhaustively for operator pairs, and the model is tied to the code by the byte-level correspondence.
+* `tokenize_spell2` (`Proofs/LexSpell2.lean`) — the reference grammar proper: every sequence, of any length within the
+  limits, of ASCII words (keyword by the keyword table, else identifier — the first word of a two-word keyword included,
+  when what follows does not complete one), two-word keywords written with any blank run between the words, numbers in
+  all forms (digits, fraction, exponent with optional sign), *every* operator of the operator table, single-quoted
+  literals (plain bytes, doubled quotes, the seven backslash escapes — the value is the decoded text), double-quoted
+  identifiers (doubled quotes), backtick identifiers (doubled backticks, any byte), separated by any mix of blank runs,
+  line comments and block comments, or by *nothing* wherever the local junction check `seqOK` allows it, is read as
+  exactly that sequence of (kind, decoded value) pairs, then one end marker; and the comments captured are exactly the
+  separators' comments, in order, with their exact text and kind.  `tokenize_layout_independent2`: two layouts of the
+  same lexemes give the same kinds and values; `word_kind_case_insensitive`: letter case does not change a word's kind.
+
+**Partial**: outside the theorem: non-ASCII identifiers and non-ASCII bytes inside quoted forms (the UTF-8 re-encoding
+of the readers), Unicode quote characters, `$`-placeholders / dollar-quoted strings / `@` forms, triple-quoted strings,
+an unterminated final line comment, and the parser-side expansion of two-word keyword tokens (so that `GROUP /*c*/ BY`
+and `GROUP BY` parse alike although their token lists differ).  For those the statement is checked by the harness
+against the generator's own record (oracle), exhaustively for operator pairs, and the model is tied to the code by the
+byte-level correspondence.
 -/
 namespace GoSQLXModel.Props.C04
 open GoSQLXModel GoSQLXModel.Lex
@@ -157,6 +171,103 @@ example : ∃ items : List Item, items.length = 5 ∧ (∀ it ∈ items, ItemOK 
   · exact ⟨⟨by decide +kernel, by decide +kernel⟩, by simp, by decide +kernel⟩
   · exact ⟨⟨by decide +kernel, gen_punct_ok.2.2.2⟩, by simp, by decide +kernel⟩
 
+
+/-! ## the reference grammar, second surface: comments and empty separators, every operator, strings, quoted identifiers -/
+
+/-- **C04 (reference grammar)**: with the Go classifier and today's tables, every sequence of ASCII words, integers,
+    operators of the operator table, single-quoted literals (plain bytes, doubled quotes, the seven backslash escapes)
+    and double-quoted identifiers, separated by any mix of blank runs, line comments and block comments — or by nothing
+    where the junction check `seqOK` allows it — is read as exactly that sequence of (kind, decoded value) pairs, then one
+    end marker; and the comments captured are exactly the separators' comments, in order, with their exact text. -/
+theorem reference_grammar_is_read_faithfully (lead : List Piece) (items : List Item2)
+    (hlead : lead.all Piece.ok = true) (hok : seqOK Driver.goClass genLexTables items = true)
+    (hsize : (sepBytes lead ++ flat2 items).length ≤ genLexTables.maxInput) (hcount : items.length ≤ genLexTables.maxTokens) :
+    ∃ toks cs, tokenize Driver.goClass genLexTables (sepBytes lead ++ flat2 items) = .ok toks cs ∧
+      toks.map Tok.key = (items.map fun it => it.1.key Driver.goClass genLexTables) ++ [(0, [])] ∧
+      cs.map Comment.key = sepComments lead ++ itemsComments items := by
+  obtain ⟨toks, cs, h1, h2, h3, _⟩ := tokenize_spell2 Driver.goClass genLexTables go_class_ascii_ok lead items hlead hok hsize hcount
+  exact ⟨toks, cs, h1, h2, h3⟩
+
+/-- **C04 (layout independence)**: changing only the blanks and comments between the lexemes never changes the
+    sequence of kinds and values -/
+theorem layout_independent2 (lead1 lead2 : List Piece) (items1 items2 : List Item2)
+    (hsame : items1.map (·.1.key Driver.goClass genLexTables) = items2.map (·.1.key Driver.goClass genLexTables))
+    (hl1 : lead1.all Piece.ok = true) (hl2 : lead2.all Piece.ok = true)
+    (hok1 : seqOK Driver.goClass genLexTables items1 = true) (hok2 : seqOK Driver.goClass genLexTables items2 = true)
+    (hs1 : (sepBytes lead1 ++ flat2 items1).length ≤ genLexTables.maxInput)
+    (hs2 : (sepBytes lead2 ++ flat2 items2).length ≤ genLexTables.maxInput)
+    (hc1 : items1.length ≤ genLexTables.maxTokens) (hc2 : items2.length ≤ genLexTables.maxTokens) :
+    ∃ t1 c1 t2 c2, tokenize Driver.goClass genLexTables (sepBytes lead1 ++ flat2 items1) = .ok t1 c1 ∧
+      tokenize Driver.goClass genLexTables (sepBytes lead2 ++ flat2 items2) = .ok t2 c2 ∧ t1.map Tok.key = t2.map Tok.key :=
+  tokenize_layout_independent2 Driver.goClass genLexTables go_class_ascii_ok lead1 lead2 items1 items2 hsame hl1 hl2 hok1 hok2
+    hs1 hs2 hc1 hc2
+
+/-- **C04 (keyword case)**: spellings that differ only in letter case are read as the same kind -/
+theorem keyword_case_does_not_change_the_kind (w1 w2 : Bytes) (h : upper Driver.goClass w1 = upper Driver.goClass w2) :
+    ((Lx.word w1).key Driver.goClass genLexTables).1 = ((Lx.word w2).key Driver.goClass genLexTables).1 :=
+  word_kind_case_insensitive _ _ w1 w2 h
+
+/-- every operator of today's table is a lexeme of this surface, except those the tokenizer reads through its
+    placeholder / dollar-quote branch (first byte `$` or `@`), which are not table look-ups -/
+theorem gen_operators_are_lexemes :
+    (genLexTables.operators.all fun o =>
+      o.1.head? == some 36 || o.1.head? == some 64 || (Lx.op o.1).ok Driver.goClass genLexTables) = true := by decide +kernel
+
+/-- the quote characters start no identifier for the Go classifier (side condition of the literal lexemes) -/
+theorem go_class_quotes : isIdentStart Driver.goClass 39 = false ∧ isIdentStart Driver.goClass 34 = false := by decide +kernel
+
+def kv' (r : Result) : Option (List (Nat × Bytes) × List (Bytes × Bool)) :=
+  match r with
+  | .ok toks cs => some (toks.map Tok.key, cs.map Comment.key)
+  | _ => none
+
+/-- non-vacuity: a statement with numbers in two forms, a backtick identifier with a doubled backtick, comments as the
+    only separators, operators juxtaposed with their operands, a literal with a doubled quote and an escape, a quoted
+    identifier, a two-word keyword split across a newline, and the same two words kept apart by a comment -/
+def sampleItems : List Item2 :=
+  [(.word (strBytes "select"), [.blanks [32]]),
+   (.num (strBytes "1") (strBytes "50") (strBytes "e-3"), []), (.op (strBytes "+"), []), (.num (strBytes "2") [] (strBytes "E10"), []),
+   (.op (strBytes ","), []), (.bq [.ch 111, .dq, .ch 107], []), (.op (strBytes ","), []),
+   (.word (strBytes "a"), []), (.op (strBytes "<="), []), (.int (strBytes "1"), []), (.op (strBytes ","), []),
+   (.str [.ch 105, .ch 116, .dq, .ch 115, .esc 110], [.block (strBytes "c")]),
+   (.word (strBytes "from"), [.blanks [32]]),
+   (.qid [.ch 84, .dq, .ch 120], [.line (strBytes "z"), .blanks [32]]),
+   (.word (strBytes "where"), [.blanks [10, 9]]),
+   (.word (strBytes "x"), [.blanks [32]]), (.compound (strBytes "Group") [32, 10, 9] (strBytes "by"), [.blanks [32]]),
+   (.word (strBytes "group"), [.block (strBytes " not a compound ")]), (.word (strBytes "by"), [.blanks [32]]),
+   (.word (strBytes "x"), []), (.op (strBytes "->>"), []), (.str [.ch 107], []), (.op (strBytes ";"), [])]
+
+/- (the concrete checks use the ASCII classifier, for which `ascii_class_ok` gives the same theorem: evaluating the
+   dumped Unicode case-mapping table inside the kernel costs minutes per word) -/
+example : seqOK .ascii genLexTables sampleItems = true := by decide +kernel
+example : flat2 sampleItems = strBytes ("select 1.50e-3+2E10,`o``k`,a<=1,'it''s\\n'/*c*/from \"T\"\"x\"--z\n where\n\tx Group \n\tby " ++
+    "group/* not a compound */by x->>'k';") := by decide +kernel
+example : sampleItems.map (·.1.key .ascii genLexTables) =
+    [(201, strBytes "select"), (Gen.Lex.ttNumber, strBytes "1.50e-3"), (60, strBytes "+"), (Gen.Lex.ttNumber, strBytes "2E10"),
+     (51, strBytes ","), (Gen.Lex.ttIdentifier, strBytes "o`k"), (51, strBytes ","), (Gen.Lex.ttIdentifier, strBytes "a"), (57, strBytes "<="), (Gen.Lex.ttNumber, strBytes "1"),
+     (51, strBytes ","), (Gen.Lex.ttSingleQuotedString, strBytes "it's\n"), (202, strBytes "from"),
+     (Gen.Lex.ttDoubleQuotedString, strBytes "T\"x"), (203, strBytes "where"), (Gen.Lex.ttIdentifier, strBytes "x"),
+     (270, strBytes "Group by"), (226, strBytes "group"), (227, strBytes "by"), (Gen.Lex.ttIdentifier, strBytes "x"),
+     (115, strBytes "->>"), (Gen.Lex.ttSingleQuotedString, strBytes "k"), (73, strBytes ";")] := by decide +kernel
+example : itemsComments sampleItems =
+    [(strBytes "/*c*/", true), (strBytes "--z", false), (strBytes "/* not a compound */", true)] := by decide +kernel
+/-- the theorem's conclusion on the sample, computed by the model itself -/
+example : kv' (tokenize .ascii genLexTables (flat2 sampleItems)) =
+    some (sampleItems.map (·.1.key .ascii genLexTables) ++ [(0, [])], itemsComments sampleItems) := by decide +kernel
+/-- with the Go classifier (no words): `1<=2,'x'"y"` -/
+example : seqOK Driver.goClass genLexTables
+    [(.int [49], []), (.op [60, 61], []), (.int [50], []), (.op [44], []), (.str [.ch 120], []), (.qid [.ch 121], [])] = true := by
+  decide +kernel
+/-- junctions the check refuses, as it must: `a` directly followed by `b` is one word, `-` directly followed by `-` opens a
+    comment, `<` directly followed by `=` is another operator, a literal directly followed by a quote is a doubled quote -/
+example : seqOK .ascii genLexTables [(.word (strBytes "a"), []), (.word (strBytes "b"), [])] = false := by decide +kernel
+example : seqOK .ascii genLexTables [(.op [45], []), (.op [45], [])] = false := by decide +kernel
+example : seqOK .ascii genLexTables [(.op [60], []), (.op [61], [])] = false := by decide +kernel
+example : seqOK .ascii genLexTables [(.str [.ch 97], []), (.str [.ch 98], [])] = false := by decide +kernel
+example : seqOK .ascii genLexTables [(.op [45], [.blanks [32]]), (.op [45], [])] = true := by decide +kernel
+/-- `group by` written as two word lexemes is refused (it is one two-word keyword); `1.e5` has no digit after the point -/
+example : seqOK .ascii genLexTables [(.word (strBytes "group"), [.blanks [32]]), (.word (strBytes "by"), [])] = false := by decide +kernel
+example : seqOK .ascii genLexTables [(.int (strBytes "1"), []), (.word (strBytes "e5"), [])] = false := by decide +kernel
 
 /-! ## non-vacuity: the model on concrete inputs (ASCII classifier) -/
 
